@@ -207,7 +207,11 @@ func runCheck(prop, tier string, seed int) int {
 	dirs := packagesForProperty(prop)
 	ledger := loadLedger()
 	lp := ledger.Properties[prop]
-	evPath := filepath.Join(verifDir, "evidence", prop+".json")
+	evDir := filepath.Join(verifDir, "evidence")
+	if d := os.Getenv("VERIF_EVIDENCE_DIR"); d != "" {
+		evDir = d // the must-fail corpus runs checks on modified trees: their evidence must not replace the real one
+	}
+	evPath := filepath.Join(evDir, prop+".json")
 	os.MkdirAll(filepath.Dir(evPath), 0o755)
 	os.Remove(evPath)
 	replayDir := filepath.Join(verifDir, "replays", prop)
